@@ -499,7 +499,12 @@ func (bh *Header) AddReference(r *Reference) error {
 		if r.uri == nil {
 			r.uri = er.uri
 		}
+		// r takes the place of er in the header.
 		bh.refs[dupID] = r
+		r.owner = bh
+		r.id = dupID
+		er.owner = nil
+		er.id = -1
 		return nil
 	}
 	if r.owner != nil || r.id >= 0 {
